@@ -249,7 +249,8 @@ def _render_kdmv(cfg, layer, view, name, parent_cid, parent_hint, extent_name) -
                     raw = raw + bytes((grain - (b - a)) * 512)
                 comp = zlib.compress(raw, cfg["level"])
                 rec = struct.pack("<QI", a, len(comp)) + comp
-                f.write(pos * 512, rec)
+                f.write(pos * 512, rec[:12])
+                f.write_blob(pos * 512 + 12, comp)
                 gtes_vals[u] = pos
                 used = (len(rec) + 511) // 512
                 pad = cfg.get("stream_pad", "tight")
